@@ -3,11 +3,17 @@ package enet
 import (
 	"fmt"
 
+	"github.com/sarchlab/akita/v5/timing"
+
+	"verif/props/tracelog"
 	"verif/sim/kit"
 )
 
 func runCase(c NetCase) (*result, kit.Outcome) {
 	var out kit.Outcome
+
+	timing.ResetIDGenerator()
+	timing.UseSequentialIDGenerator()
 
 	w := build(&c)
 	w.run()
@@ -169,3 +175,16 @@ func PortMonitorRun(c NetCase) kit.Outcome {
 
 // ShrinkNet exposes the case shrinker.
 func ShrinkNet(c NetCase) []NetCase { return shrinkNet(c) }
+
+// TraceRun executes a network case with a trace log attached to the engine and every port.
+func TraceRun(c NetCase) *tracelog.Log {
+	timing.ResetIDGenerator()
+	timing.UseSequentialIDGenerator()
+
+	w := build(&c)
+	l := &tracelog.Log{}
+	l.Attach(w.eng, w.portByNm)
+	w.run()
+
+	return l
+}
